@@ -17,11 +17,14 @@ ID = "C05"
 RULE = ("a frame is an injective partial map estimate-id -> (ground-truth id, near|far) | unmatched | absent over ids {a,b}x{x,y} "
         "(28 frames; thorough also {a,b,c}x{x,y}: 94 frames at depth 2); ALL histories [prev, f1..fn] with prev in {empty, any frame} "
         "and n <= 3 (quick) / n <= 4 from the empty previous frame (thorough) are run through CLEAR in CENTERDISTANCE and IOU2D mode "
-        "with several ground-truth counts; extras: results of another label, unknown-labelled estimates; every history is re-run "
+        "with several ground-truth counts; extras: results of another label, unknown-labelled estimates, estimates that keep their id while their "
+        "label alternates car/unknown between frames (6 label schedules, compared with the history giving the relabelled stretch an id of its own); every history is re-run "
         "under 7 bijective renamings of estimate and ground-truth ids (two of them to un-padded numeric ids whose concatenations coincide); TrackingMetricsScore._sum_clear over pairs of per-label "
         "histories; a manager layer (tracking task, real matcher) over 3-frame sequences. state = (previous frame, current frame, "
         "running counters class); non-trivial = history containing an id switch, a FP or a carried-over pair")
 ASSUMPTIONS = [
+    "an estimated track is identified by its id and label (the anchor code's reading of 'estimated track'): a label change under the same id is "
+    "compared with a change of id, never with an unchanged track",
     "exact TP/FP/switch/score equality with the reference is asserted on 'stable' histories only (a pair present in consecutive "
     "frames keeps its near/far flag), which makes CLEAR's carried-over score unobservable; the accounting identity tp+fp = "
     "#results and the MOTA/MOTP formulas are asserted on all histories",
@@ -356,6 +359,22 @@ def check_case(case, acc):
             if _results(cx) != _results(c0):
                 bad("label-policy-dependence", "%s score %s, car-labelled estimates on the same tracks %s" % (nm, _results(cx), _results(c0)))
         acc.state(("unk_tracks", hist), nontrivial=c0.id_switch > 0 or c0.tp > 0)
+        # an estimated track is identified by its id AND label (the reading under which the anchor code and the statement agree): an estimate
+        # that keeps its id but is labelled differently from one frame to the next (car, unknown, car - all label-correct under the policy)
+        # scores exactly like the history in which the differently labelled stretch carries an id of its own
+        for sched in (("CAR", "UNKNOWN", "CAR"), ("UNKNOWN", "CAR", "CAR"), ("CAR", "CAR", "UNKNOWN"), ("UNKNOWN", "UNKNOWN", "CAR"),
+                      ("CAR", "UNKNOWN", "UNKNOWN"), ("UNKNOWN", "CAR", "UNKNOWN")):
+            if not all(any(e == "a" for (e, g, n) in f) for f in hist[:2]) and not all(any(e == "a" for (e, g, n) in f) for f in hist[1:]):
+                continue     # "a" is never present in two consecutive frames: nothing to relabel
+            acc.exec(2)
+            lab = lambda e, fi: sched[fi] if e == "a" else "CAR"  # noqa
+            cx = CLEAR([[R(e, g, n, elabel=lab(e, fi), policy="ALLOW_UNKNOWN") for (e, g, n) in f] for fi, f in enumerate(hist)], 3, [CAR], MatchingMode.CENTERDISTANCE, [1.0])
+            cr = CLEAR([[R(e, g, n, re={"a": "a~unk"} if lab(e, fi) == "UNKNOWN" else None, policy="ALLOW_UNKNOWN") for (e, g, n) in f
+                         if not (g is None and lab(e, fi) == "UNKNOWN")] for fi, f in enumerate(hist)], 3, [CAR], MatchingMode.CENTERDISTANCE, [1.0])
+            acc.compared()
+            if _results(cx) != _results(cr):
+                bad("relabelled-track", "estimate 'a' labelled %s over the frames (same id) scores %s; with the unknown-labelled stretch under an id of its own %s" % (
+                    "/".join(sched), _results(cx), _results(cr)))
     elif k == "rawname":
         # the same tracks, spelled differently from frame to frame in the source data: the evaluated labels are identical
         hist = [tuple(tuple(r) for r in f) for f in case["hist"]]
